@@ -212,6 +212,11 @@ Theorem C01_generated_process_read_buf :
 Proof. vm_compute. reflexivity. Qed.
 Print Assumptions C01_generated_process_read_buf.
 
+(* The probes of _process_output include buffers that hold the text of a command as a line of their own (first / inner /
+   last / only line, other case, other blanks, twice), and the REAL function is called with EVERY signature it accepts: should
+   it have a parameter beyond (buf, strip_prompt), that parameter is given values derived from the buffer's own lines (by
+   keyword and by position) and every accepted call is a probe here - the model's process_output is a function of the
+   configuration, the buffer and strip_prompt only, so a result that depends on what was typed breaks this obligation. *)
 Theorem C01_generated_process_output :
   forallb (fun x : bytes * bool * bytes * bytes =>
              let '(ret, strip, buf, res) := x in
